@@ -62,11 +62,14 @@ pub fn vx_into_validated(extensions: Vec<ExpirationExtension2>) -> (r: Vec<Valid
 { unimplemented!() }
 
 // ---- fvm_ipld_bitfield::BitField::iter (prelude/bitfield.rs views a BitField as a finite set of u64) ---------------------------------
+/// the members of a bit field in the order `iter()` yields them
+pub uninterp spec fn bf_members(s: vstd::set::Set<u64>) -> Seq<u64>;
 impl BitField {
     /// `bf.iter()`: the members of the bit field, each exactly once, in ascending order (the unit iterates the returned vector)
     #[verifier::external_body]
     pub fn iter(&self) -> (r: Vec<u64>)
         ensures
+            r@ == bf_members(self@),
             forall|x: u64| #[trigger] r@.contains(x) <==> self@.contains(x),
             forall|i: int, j: int| 0 <= i < j < r@.len() ==> r@[i] < r@[j],
     { unimplemented!() }
